@@ -8,3 +8,10 @@ import BddVerif.Props.C01
 #print axioms B.Props.C01.connective_numbers
 #print axioms B.Props.C01.ite_table_check
 #print axioms B.Props.C01.ite_connective
+#print axioms B.Props.C01.ternary_pointwise
+#print axioms B.Props.C01.ternary_eager_lazy_same
+#print axioms B.Props.C01.if_then_else_pointwise
+#print axioms B.Props.C01.ite_table_consistent
+#print axioms B.Props.C01.table_checks_sound
+#print axioms B.Props.C01.not_pointwise
+#print axioms B.Props.C01.not_canonical_form
